@@ -975,6 +975,27 @@ def mutations(nodes):
                 m = copy.deepcopy(nodes)
                 m[i]["derive"]["parameter_sweep"]["parameters"][pn] = esrc(mutate_expr(e, w)[0])
                 yield ("sweep.expression", "node %d %s leaf %d" % (i, pn, w), m)
+            # `a or b` / `a and b` return one of their operands: exchanging distinct operands is another expression
+            def bool_swaps(x, path=()):
+                if isinstance(x, tuple):
+                    if x and x[0] == "bool" and len(x[2]) >= 2 and x[2][0] != x[2][-1]:
+                        yield path
+                    for j, y in enumerate(x):
+                        yield from bool_swaps(y, path + (j,))
+                elif isinstance(x, list):
+                    for j, y in enumerate(x):
+                        yield from bool_swaps(y, path + (j,))
+
+            def replace_at(x, path, f):
+                if not path:
+                    return f(x)
+                if isinstance(x, tuple):
+                    return tuple(replace_at(y, path[1:], f) if j == path[0] else y for j, y in enumerate(x))
+                return [replace_at(y, path[1:], f) if j == path[0] else y for j, y in enumerate(x)]
+            for bp in list(bool_swaps(e))[:3]:
+                m = copy.deepcopy(nodes)
+                m[i]["derive"]["parameter_sweep"]["parameters"][pn] = esrc(replace_at(e, bp, lambda b: ("bool", b[1], list(reversed(b[2])))))
+                yield ("sweep.expression", "node %d %s operands of and/or exchanged" % (i, pn), m)
             if e[0] == "bin" and e[1] not in COMM and e[2] != e[3]:
                 m = copy.deepcopy(nodes)
                 m[i]["derive"]["parameter_sweep"]["parameters"][pn] = esrc(("bin", e[1], e[3], e[2]))
